@@ -103,7 +103,7 @@ func vxSpecMatch(addrs []felt.Address, keys [][]felt.Felt, e *core.Event) bool {
 }
 
 func VxC09PreConfirmedPaging() {
-	vx.Bound("2 pre-confirmed blocks holding 3 (thorough: 4) events in 3 transactions, emitters and keys from a 2-value domain, 0..1 (thorough: 0..2) keys per event; filter: 0..1 address, 0..1 (0..2) key positions with 0..2 alternatives; chunk size 1..4")
+	vx.Bound("2 pre-confirmed blocks holding 3 (thorough: 4) events in 3 transactions, emitters and keys from a 2-value domain, 0..1 keys per event; filter: 0..1 address, 0..1 key positions with 0..2 alternatives; chunk size 1..4")
 	if vx.InEngine() {
 		vx.Stub("(*github.com/NethermindEth/juno/blockchain.EventMatcher).TestBloom", vxMaybe)
 	}
@@ -129,7 +129,7 @@ func VxC09PreConfirmedPaging() {
 	vxMaxKeys = 1
 	perTxB := []int{1, 1}
 	if vx.Thorough() {
-		vxMaxKeys = 2
+		// (two keys per event as well exceed the path budget; the thorough tier adds the fourth event)
 		perTxB = []int{1, 2}
 	}
 	b1, ev1 := mk(11, []int{1}, "a")
